@@ -94,6 +94,10 @@ pub struct WorldCfg {
     /// answered) or have run on another session for one uplink
     #[serde(default)]
     pub restore_into_used: bool,
+    /// an uplink-only application: the device is built with a downlink queue of depth D = 0 (board 0, stub radio);
+    /// only C04 draws it (payloads cannot be delivered, so the other oracles have nothing to compare)
+    #[serde(default)]
+    pub dl_queue0: bool,
 }
 
 impl WorldCfg {
@@ -116,6 +120,7 @@ impl WorldCfg {
             phy: None,
             lazy_app: false,
             restore_into_used: false,
+            dl_queue0: false,
         }
     }
 }
@@ -629,6 +634,9 @@ impl Shrinkable for MacCase {
             fields.push(c);
             let mut c = self.cfg.clone();
             c.restore_into_used = false;
+            fields.push(c);
+            let mut c = self.cfg.clone();
+            c.dl_queue0 = false;
             fields.push(c);
             let mut c = self.cfg.clone();
             c.fcnt_up0 = 0;
